@@ -7,7 +7,7 @@ CASES = [
     dict(expect="fire", desc="late subscriber after completion gets no value", names="B3-subscribe", edits=[dict(file=A,
          old="        elif has_value:\n            observer.on_next(value)\n            observer.on_completed()", new="        elif has_value:\n            observer.on_completed()")]),
     dict(expect="fire", desc="late subscriber after error also gets value", names="B3-subscribe", edits=[dict(file=A,
-         old="        if ex:\n            observer.on_error(ex)", new="        if ex:\n            observer.on_next(value)\n            observer.on_error(ex)")]),
+         old="        if ex is not None:\n            observer.on_error(ex)", new="        if ex is not None:\n            observer.on_next(value)\n            observer.on_error(ex)")]),
     dict(expect="silent", desc="completion: swap order of local reads", edits=[dict(file=A,
          old="            value = self.value\n            has_value = self.has_value\n\n        if has_value:\n            for observer in observers:", new="            has_value = self.has_value\n            value = self.value\n\n        if has_value:\n            for observer in observers:")]),
 ]
